@@ -248,19 +248,40 @@ def oracle(ctx, boost):
         fx = xr.DataArray(f, dims=["a", "b"])
         ox = xr.DataArray(o, dims=["a", "b"])
         red = rng.choice([None, ["b"], ["a"], ["a", "b"]])
-        man = BinaryContingencyManager(fx, ox).transform(reduce_dims=red)
-        with np.errstate(all="ignore"):
-            pairs = [("probability_of_detection", probability_of_detection(fx, ox, reduce_dims=red), man.probability_of_detection()),
-                     ("probability_of_false_detection", probability_of_false_detection(fx, ox, reduce_dims=red),
-                      man.probability_of_false_detection())]
+        shape_kind = rng.choice(["same", "same", "obs-extra-dim", "fcst-extra-dim"])
+        if shape_kind != "same":
+            # one side carries a dimension the other lacks (broadcast): both entry points must treat it alike
+            extra = xr.DataArray([rng.choice([0.0, 1.0, float("nan")]) for _ in range(2)], dims=["s"])
+            flip = lambda base: xr.where(extra == 1, 1 - base, base).where(extra.notnull())
+            if shape_kind == "obs-extra-dim":
+                ox = flip(ox)
+            else:
+                fx = flip(fx)
+            red = rng.choice([None, ["b"], ["a", "b"], ["s"], ["a", "b", "s"], "all"])
+        ctx.tag("standalone:" + shape_kind)
+        case_desc = {"fcst": core.canon(np.asarray(fx.values).tolist()), "fcst_dims": list(fx.dims),
+                     "obs": core.canon(np.asarray(ox.values).tolist()), "obs_dims": list(ox.dims), "reduce_dims": red}
         b["cases"] += 1
         ctx.evaluations += 1
+        pairs = []
+        for nm, fn in (("probability_of_detection", probability_of_detection),
+                       ("probability_of_false_detection", probability_of_false_detection)):
+            try:
+                with np.errstate(all="ignore"):
+                    man = BinaryContingencyManager(fx, ox).transform(reduce_dims=red)
+                    pairs.append((nm, fn(fx, ox, reduce_dims=red), getattr(man, nm)()))
+            except Exception as ex:       # both entry points accept these inputs on the unchanged tree
+                ctx.fail("standalone-pod-pofd", "property", "binary." + nm, "exception:" + core.exc_class(ex), case_desc,
+                         observed=str(ex)[:200], expected="the manager's value", tags={"method": nm})
         for nm, s, mres in pairs:
-            sv = np.asarray(s.values, dtype=float).ravel()
-            mv = np.asarray(mres.values, dtype=float).ravel()
+            sv = np.asarray(s.transpose(*sorted(s.dims)).values, dtype=float).ravel()
+            mv = np.asarray(mres.transpose(*sorted(mres.dims)).values, dtype=float).ravel()
+            if sorted(s.dims) != sorted(mres.dims):
+                sv = np.array([float("inf")])      # different result dimensions: certainly not the same answer
             if sv.shape != mv.shape or not all(core.close_ff(x, y) for x, y in zip(sv, mv)):
                 ctx.fail("standalone-pod-pofd", "property", "binary." + nm, "standalone-differs",
-                         {"fcst": f.tolist(), "obs": o.tolist(), "reduce_dims": red}, observed=sv.tolist(), expected=mv.tolist(),
+                         {"fcst": core.canon(np.asarray(fx.values).tolist()), "fcst_dims": list(fx.dims), "obs": core.canon(np.asarray(ox.values).tolist()),
+                          "obs_dims": list(ox.dims), "reduce_dims": red}, observed=sv.tolist(), expected=mv.tolist(),
                          tags={"method": nm})
 
 
